@@ -26,11 +26,139 @@ func init() {
 	})
 }
 
-// ordExempt: loops the analysis cannot decide, frozen with the reason (DESIGN §3.5).
+// ordExempt: loops the analysis cannot decide, frozen by role with the reason (DESIGN §3.5). The roles are
+// structural (what is ranged, what the body does), not names of functions, so that moving a loop into a
+// helper neither loses the exemption nor lets it cover a different loop.
 var ordExempt = map[string]string{
-	"analysis.importExternalReferences/range opts.flattenContext.newRefs": "inserts into the map it ranges over: inserted entries satisfy path == key and are skipped by the same loop; duplicate inserts are field-wise equal (assumed, not decided)",
-	"analysis.stripOAIGen/range opts.flattenContext.newRefs#2":            "the callee has cross-entry effects; the parents fix-up at the end of stripOAIGenForRef re-points entries that referred to the removed one (assumed, not decided)",
-	"internal/flatten/sortref.ReverseIndex/range schemas":                  "first ref seen represents its group: members of a group have equal normalised paths and consumers use only the normalised path, the fragment base name and RebaseRef (assumed, not decided)",
+	"self-insert:context.newRefs": "inserts into the map it ranges over: inserted entries satisfy path == key and are skipped by the same loop; duplicate inserts are field-wise equal (assumed, not decided)",
+	"cross-entry:context.newRefs": "the callee has cross-entry effects; the parents fix-up at the end of the callee re-points entries that referred to the removed one (assumed, not decided)",
+	"group-first:RefRevIdx":       "first ref seen represents its group: members of a group have equal normalised paths and consumers use only the normalised path, the fragment base name and RebaseRef (assumed, not decided)",
+}
+
+// rangedField: the struct field a ranged expression ends in ("context.newRefs"), following local aliases.
+func (f *ordFn) rangedField(x ast.Expr) (*types.Var, string) {
+	x = core.Unparen(x)
+	for i := 0; i < 4; i++ {
+		if sel, ok := x.(*ast.SelectorExpr); ok {
+			if fv := core.FieldOf(f.info, sel); fv != nil {
+				owner := core.OwnerStruct(f.e.c.P, fv)
+				if j := strings.LastIndex(owner, "."); j >= 0 {
+					owner = owner[j+1:]
+				}
+				return fv, owner + "." + fv.Name()
+			}
+			return nil, ""
+		}
+		id, ok := x.(*ast.Ident)
+		if !ok {
+			return nil, ""
+		}
+		o := core.ObjOf(f.info, id)
+		defs := f.e.c.P.Locals(f.fi).Defs[o]
+		if len(defs) != 1 || defs[0].Kind != core.DefAssign {
+			return nil, ""
+		}
+		x = core.Unparen(defs[0].Expr)
+	}
+	return nil, ""
+}
+
+// loopRole classifies a loop into one of the frozen exemption roles ("" when none applies).
+func (f *ordFn) loopRole(n ast.Node, body *ast.BlockStmt) string {
+	rs, ok := n.(*ast.RangeStmt)
+	if !ok {
+		return ""
+	}
+	c := f.e.c
+	if fv, name := f.rangedField(rs.X); fv != nil && name == "context.newRefs" {
+		self, cross := false, false
+		ast.Inspect(body, func(m ast.Node) bool {
+			switch x := m.(type) {
+			case *ast.AssignStmt:
+				for _, l := range x.Lhs {
+					if ix, ok := core.Unparen(l).(*ast.IndexExpr); ok {
+						if lv, _ := f.rangedField(ix.X); lv == fv {
+							self = true
+						}
+					}
+				}
+			case *ast.CallExpr:
+				fns, _ := c.P.Callees(f.fi, x)
+				for _, callee := range fns {
+					cf := c.P.Funcs[callee]
+					if cf == nil {
+						continue
+					}
+					reach := c.P.Reachable(cf)
+					for g := range reach {
+						if g.Decl == nil || g.Decl.Body == nil {
+							continue
+						}
+						gf := &ordFn{e: f.e, fi: g, info: g.Pkg.TypesInfo}
+						ast.Inspect(g.Decl.Body, func(k ast.Node) bool {
+							if r2, ok := k.(*ast.RangeStmt); ok {
+								if v2, _ := gf.rangedField(r2.X); v2 == fv {
+									cross = true
+								}
+							}
+							return !cross
+						})
+					}
+				}
+			}
+			return true
+		})
+		switch {
+		case self:
+			return "self-insert:" + name
+		case cross:
+			return "cross-entry:" + name
+		}
+		return ""
+	}
+	// grouping of refs by normalised path: the loop fills a map of sortref.RefRevIdx from a map of spec.Ref
+	if t := f.info.TypeOf(rs.X); t != nil && core.IsMap(t) {
+		if mt, ok := t.Underlying().(*types.Map); ok && core.IsSpecType(mt.Elem(), "Ref") {
+			fills := false
+			ast.Inspect(body, func(m ast.Node) bool {
+				if as, ok := m.(*ast.AssignStmt); ok {
+					for _, l := range as.Lhs {
+						if ix, ok := core.Unparen(l).(*ast.IndexExpr); ok {
+							if lt := f.info.TypeOf(ix.X); lt != nil {
+								if lm, ok := lt.Underlying().(*types.Map); ok {
+									if _, nm := core.NamedOf(lm.Elem()); nm == "RefRevIdx" {
+										fills = true
+									}
+								}
+							}
+						}
+					}
+				}
+				return true
+			})
+			if fills {
+				return "group-first:RefRevIdx"
+			}
+		}
+	}
+	return ""
+}
+
+// rangeDesc names the ranged collection structurally (final field, callee, or type), never by local names.
+func (f *ordFn) rangeDesc(x ast.Expr) string {
+	if _, name := f.rangedField(x); name != "" {
+		return name
+	}
+	x = core.Unparen(x)
+	if call, ok := x.(*ast.CallExpr); ok {
+		if callee := f.e.c.P.StaticCallee(f.fi, call); callee != nil {
+			return callee.Name() + "()"
+		}
+	}
+	if t := f.info.TypeOf(x); t != nil {
+		return types.TypeString(t, func(p *types.Package) string { return p.Name() })
+	}
+	return "?"
 }
 
 type ordEngine struct {
@@ -46,6 +174,7 @@ type ordEngine struct {
 	hold         map[string][2]string
 	exempt       map[string][2]string
 	sinks        map[string][2]string
+	roles        map[string]int
 }
 
 func ordRules(c *Ctx) {
@@ -54,7 +183,7 @@ func ordRules(c *Ctx) {
 		return
 	}
 	e := &ordEngine{c: c, eff: effects(c), retTainted: map[*core.FuncInfo]bool{}, retParam: map[*core.FuncInfo]int{}, sorts: map[*core.FuncInfo]bool{},
-		fieldTaint: map[*types.Var]bool{}, iterNext: map[*types.Func]bool{}, viol: map[string][2]string{}, hold: map[string][2]string{}, exempt: map[string][2]string{}, sinks: map[string][2]string{}}
+		fieldTaint: map[*types.Var]bool{}, iterNext: map[*types.Func]bool{}, viol: map[string][2]string{}, hold: map[string][2]string{}, exempt: map[string][2]string{}, sinks: map[string][2]string{}, roles: map[string]int{}}
 	reach := core.SortedSet(c.P.Reachable(flat))
 	// methods that advance a reflect.MapIter
 	for _, fi := range c.P.SortedFuncs() {
@@ -459,14 +588,18 @@ func (f *ordFn) checkLoops() {
 		}
 		f.e.loopsChecked++
 		base := f.fi.QName() + "/" + strings.SplitN(desc, " (", 2)[0]
+		if rs, isRange := n.(*ast.RangeStmt); isRange {
+			base = f.fi.QName() + "/range " + f.rangeDesc(rs.X)
+		}
 		f.ordinal[base]++
 		k := base
 		if f.ordinal[base] > 1 {
 			k = fmt.Sprintf("%s#%d", base, f.ordinal[base])
 		}
 		pos := c.P.Pos(n.Pos())
-		if why, ex := ordExempt[k]; ex {
-			f.e.exempt[k] = [2]string{pos, why}
+		if role := f.loopRole(n, body); role != "" {
+			f.e.exempt[k] = [2]string{pos, "role " + role + ": " + ordExempt[role]}
+			f.e.roles[role]++
 			return true
 		}
 		problems := f.bodyProblems(body, key, val)
